@@ -11,6 +11,7 @@ import (
 	"reflect"
 	"strconv"
 	"strings"
+	"sync/atomic"
 	"testing"
 	"unicode/utf8"
 
@@ -132,7 +133,12 @@ func spellEncoding(enc string, how int) string {
 type C16Case struct {
 	Provider string   `json:"provider"`
 	Reqs     []C16Req `json:"reqs"`
+	// LateReader: two media types get their (JSON) reader registered after the service is up;
+	// one of them was asked for once before. Afterwards both read the same body alike.
+	LateReader bool `json:"late_reader,omitempty"`
 }
+
+var c16LateCounter int64
 
 func fbits(f float64) string { return strconv.FormatUint(math.Float64bits(f), 16) }
 func ffrom(s string) float64 {
@@ -277,6 +283,7 @@ func genC16(t *rapid.T) C16Case {
 		}
 		c.Reqs = append(c.Reqs, r)
 	}
+	c.LateReader = rapid.IntRange(0, 11).Draw(t, "latereader") == 0
 	return c
 }
 
@@ -400,6 +407,28 @@ func checkC16(c C16Case) (vs []*Violation) {
 	labels := []string{"provider_" + c.Provider}
 	nontrivial := false
 	prevBroken := false
+	if c.LateReader {
+		// (the registry cannot forget: fresh names per evaluation)
+		n := atomic.AddInt64(&c16LateCounter, 2)
+		k1 := "application/vnd.c16late" + strconv.FormatInt(n, 10) + "+json"
+		k2 := "application/vnd.c16late" + strconv.FormatInt(n+1, 10) + "+json"
+		send := func(k, id string) (error, int64) {
+			codecNow = "json"
+			last = readResult{err: fmt.Errorf("handler did not run")}
+			q := model.ReqSpec{Method: "POST", Path: "/e", Body: `{"i64":4611686018427387905}`, Headers: []model.H{{K: "Content-Type", V: k + "; charset=utf-8"}}}
+			harness.Do(ct, rec, q, harness.ViaDispatch, id)
+			return last.err, last.j.I64
+		}
+		send(k1, "late0") // nobody reads this type yet: whatever the answer is, it is this request's
+		restful.RegisterEntityAccessor(k1, restful.NewEntityAccessorJSON(k1))
+		restful.RegisterEntityAccessor(k2, restful.NewEntityAccessorJSON(k2))
+		e1, v1 := send(k1, "late1")
+		e2, v2 := send(k2, "late2")
+		labels = append(labels, "reader_registered_late")
+		if e1 != nil || e2 != nil || v1 != 4611686018427387905 || v2 != v1 {
+			vs = append(vs, viol("", "two media types whose JSON reader was registered after the service was up: the one that had been asked for once before reads (err=%v, value=%d), the other one (err=%v, value=%d)", e1, v1, e2, v2))
+		}
+	}
 	for i, r := range c.Reqs {
 		mime := restful.MIME_JSON
 		if r.Codec == "xml" {
